@@ -31,6 +31,8 @@ ANSI = re.compile(r"\x1b\[[0-9;:]*m")
 def gen_world(rng, n, for_sheet):
     tasks, roots = es.gen_structure(rng, n)
     ids = rng.sample(range(1, 4 * n + 3), n)
+    if rng.random() < 0.3:
+        ids = [i + 1000 if i > 0 else i for i in ids]        # large numbers: equal ids are not the same int object
     W = {"ids": ids, "par": [t["par"] for t in tasks], "kids": [t["kids"] for t in tasks], "roots": roots,
          "pre": [[] for _ in tasks], "ext": [[] for _ in tasks], "name": [], "ms": [], "start": [], "end": [],
          "sec": []}
